@@ -146,6 +146,7 @@ _ACOS = z3.Function("tp_arccos", z3.RealSort(), z3.RealSort())
 _EXP = z3.Function("tp_exp", z3.RealSort(), z3.RealSort())
 _TANH = z3.Function("tp_tanh", z3.RealSort(), z3.RealSort())
 _CBRT = z3.Function("tp_cbrt", z3.RealSort(), z3.RealSort())
+_POW = z3.Function("tp_pow", z3.RealSort(), z3.RealSort(), z3.RealSort())
 
 
 def cbrt_term(x):
@@ -379,6 +380,10 @@ def power(I, a, b):
         idx, hyps = a.generic_index("cb")
         I.ctx.safety("dom", zreal(a.at(idx)) >= 0, hyps, "fractional power of non-negative")
         return ew1(a, lambda x: cbrt_term(zreal(x)), "real")
+    if isinstance(b, (Tensor, STensor)):
+        # element-wise x ** y with a tensor exponent: the real power function stays uninterpreted (tp_pow), only the
+        # element-wise / broadcasting structure is modelled
+        return ew2(I, a, lift(b), lambda x, y: _POW(zreal(x), zreal(y)), "real")
     raise Unsupported(f"tensor power with exponent {b!r}")
 
 
